@@ -27,11 +27,15 @@ EXPLANATION = ("Formulas are printed from generated expression trees (all ordere
 BOUNDS = {"quick": {"trees": "162 operator pairs + 60 unary/binary + 12 chains + every function + 60 seeded trees of depth <= 3", "variables": "all finite reals; "
                     "right operand of % and fmod a literal (linear encoding)", "arrays": "variables as arrays of 2 for a subset incl. min/max"},
           "thorough": {"trees": "as quick + 400 seeded trees of depth <= 4"}}
-OUTSIDE = ["ill-formed formulas (their rejection is a parser property over arbitrary text: C16, not claimed)",
+OUTSIDE = ["ill-formed formulas beyond the token level and beyond the listed classes: the rejection obligations run the real parser on every "
+           "sequence of up to 5 (thorough 6) symbolic tokens and demand balanced parentheses and a stack effect of exactly one value for "
+           "whatever is accepted; operators that merely stand in the wrong place (`+ a b`, which the shunting-yard parser reads as `a + b`) "
+           "are not one of the statement's classes (missing operand, wrong arity, unbalanced parentheses) and are not judged",
            "a tighter-binding prefix operator applied to an unparenthesised looser one (`~ .- a`): not derivable from the table, the library rejects it",
            "truth-valued and/or/! results used as arithmetic operands (excluded by the statement)", "libm accuracy; rounding (Mode R)"]
 ASSUMPTIONS = ["variables finite", "Mode R: exact reals; transcendental functions uninterpreted with instance axioms"]
-STUBS = []
+STUBS = ["ill-formed formulas: symbolic tokens (symfl/tokens.py) with the hooks of harness/c16.py (format_infix on token texts, re-split results of "
+         "infix_to_postfix, linear-scan function factory, to_float of a token forks over the numeric words)"]
 OB_BUDGET_S = {"quick": 240, "thorough": 1500}
 
 BIN_OPS = ["^", "**", "*", "/", "%", "+", "-", "and", "or"]
@@ -327,6 +331,115 @@ def _obligations(tier, seed):
     return [(nm, ob_formula(t, nm, **kw)) for nm, t, kw in families(tier, seed)]
 
 
+# ------------------------------------------------------------------------------------------------------------------
+# "a formula that is not well-formed is rejected when loaded": every sequence of L symbolic tokens through the real parser
+# ------------------------------------------------------------------------------------------------------------------
+F_WORDS = ["a", "2", "+", "*", "^", "~", "(", ")", ",", "sin", "max", "pi"]
+F_EFFECT = {"a": 1, "2": 1, "zzz": 1, "pi": 1, "+": -1, "*": -1, "^": -1, "~": 0, "sin": 0, "max": -1, "(": 0, ")": 0, ",": 0}
+
+PY_FORMULA = """
+def load_formula(fl, text):
+    f = fl.Function("f", text)
+    try:
+        f.load()
+    except Exception as ex:
+        if type(ex).__name__ in ("BudgetExceeded", "Unsupported"): raise
+        return ex, None
+    return None, f.root.postfix()
+
+def listed_defects(words, effect):
+    # the statement's classes, judged on the token list: unbalanced parentheses; operands / arities that do not add up to one value
+    depth = 0
+    for w in words:
+        depth += (w == "(") - (w == ")")
+        if depth < 0: return "unbalanced parentheses"
+    if depth != 0: return "unbalanced parentheses"
+    if sum(effect.get(w, 1) for w in words) != 1: return "operands and arities do not add up to one value (missing operand / wrong arity)"
+    return None
+"""
+_fns = {}
+exec(PY_FORMULA, _fns)
+
+
+def ob_illformed(L, label, only=None, first=None):
+    """only: free tokens restricted to these words (+ the unknown word); first: the first token is this word (work splitting)"""
+    def run(ob):
+        from symfl import tokens
+        from symfl.tokens import Tok, Vocab, SymText, spell
+        from .c16 import token_hooks, make_factory_manager, outcome_class
+        fl = install()
+        set_mode("R")
+        tokens.reset_registry()
+        ob.max_paths = 400000
+        vocab = Vocab(F_WORDS)
+        kinds = [z3.Int(f"k{i}") for i in range(L)]
+        toks = [Tok(i, kinds[i], vocab) for i in range(L)]
+        pre = [vocab.domain(k) for k in kinds]
+        if only:
+            pre += [z3.Or(*[k == vocab.idx(w) for w in only + ["zzz"]]) for k in kinds]
+        if first:
+            pre.append(kinds[0] == vocab.idx(first))
+        ins = {f"k{i}": core.SymInt(k) for i, k in enumerate(kinds)}
+        eff = lambda k: z3.Sum([z3.If(k == vocab.idx(w), F_EFFECT[w], 0) for w in F_WORDS + ["zzz"]])   # noqa: E731
+        depth, balanced = z3.IntVal(0), []
+        for k in kinds:
+            depth = depth + z3.If(k == vocab.idx("("), 1, 0) - z3.If(k == vocab.idx(")"), 1, 0)
+            balanced.append(depth >= 0)
+        WELL = z3.And(*balanced, depth == 0, z3.Sum([eff(k) for k in kinds]) == 1)
+
+        def rbody(v):
+            ws = [vocab.spell(int(v[f"k{i}"])) for i in range(L)]
+            return "\n".join(["globals()['EXPECT_NO_EXCEPTION'] = False", PY_FORMULA, f"text = {' '.join(ws)!r}; effect = {F_EFFECT!r}",
+                              "exc, postfix = load_formula(fl, text)",
+                              "why = listed_defects(text.split(), effect)",
+                              "verdict(exc is None and why is not None, 'the formula %r was loaded (as %r) although it has %s' % (text, postfix, why))"])
+
+        rp = replay_fn(PROPERTY, label, rbody, key=None)
+        fm = make_factory_manager(fl)
+        text = SymText(toks)
+        todo = []
+        n = 0
+        ob.r.sample = {"label": f"{label}: loaded => balanced parentheses and a stack effect of one value", "path_conditions": "token identities",
+                       "claim": "path condition => And(prefix depths >= 0, depth == 0, Sum(effect(k_i)) == 1)"}
+        with token_hooks(fl, fm):
+            for p in ob.paths(pre, lambda: _fns["load_formula"](fl, text), incremental=True):
+                n += 1
+                if p.exc is not None:
+                    ob.error(f"{label}: harness raised {type(p.exc).__name__}: {p.exc}")
+                    continue
+                exc, postfix = p.result
+                m = ob.witness(p, label)
+                if m is None:
+                    continue
+                ws = [vocab.spell(m.eval(k, model_completion=True).as_long()) for k in kinds]
+                todo.append((ws, outcome_class(exc), spell(postfix, m) if postfix is not None else None))
+                if exc is None:
+                    ob.prove(pre, p, WELL, f"{label}: loaded although ill-formed, e.g. {' '.join(ws)!r}", ins, rp)
+                    zw = z3.is_true(m.eval(WELL, model_completion=True))
+                    if zw != (_fns["listed_defects"](ws, F_EFFECT) is None):
+                        ob.error(f"oracle encodings disagree on {ws}")
+        if n == 0:
+            ob.error("no path")
+        for ws, oc, postfix in todo:      # conformance of the token model: the spelled formula on the plain library
+            cexc, cpost = _fns["load_formula"](fl, " ".join(ws))
+            if outcome_class(cexc) != oc or (postfix is not None and cpost != postfix):
+                ob.r.conform_fail.append(f"{label}: token model and plain run disagree on {' '.join(ws)!r}: {oc}/{postfix} vs {outcome_class(cexc)}/{cpost}")
+                break
+            ob.r.conform_ok += 1
+        if not first:
+            ob.expect_sat(pre, None, WELL, f"{label}/some-sequence-is-ill-formed")
+
+    return run
+
+
 def obligations(tier, seed):
     from . import conform
-    return _obligations(tier, seed) + conform.obligations(PROPERTY, tier)
+    ill = [(f"illformed/any{L}", ob_illformed(L, f"illformed/any{L}")) for L in range(1, 5)]
+    CORE = ["a", "+", "~", "(", ")", ",", "max"]        # longer sequences over the words parentheses and arities are about
+    if tier == "quick":
+        ill += [(f"illformed/core5/first={w}", ob_illformed(5, f"illformed/core5/first={w}", only=CORE, first=w)) for w in CORE + ["zzz"]]
+    else:
+        ill += [(f"illformed/any5/first={w}", ob_illformed(5, f"illformed/any5/first={w}", first=w)) for w in F_WORDS + ["zzz"]]
+        ill += [(f"illformed/core6/first={w}", ob_illformed(6, f"illformed/core6/first={w}", only=CORE, first=w)) for w in CORE + ["zzz"]]
+        ill += [(f"illformed/core7/first={w}", ob_illformed(7, f"illformed/core7/first={w}", only=["a", "+", "(", ")", "max", ","], first=w)) for w in ["a", "+", "(", ")", "max", ",", "zzz"]]
+    return _obligations(tier, seed) + ill + conform.obligations(PROPERTY, tier)
